@@ -363,7 +363,7 @@ def search(ctx):
         if r and "C16:rejected-input-changes-later-results" not in seen:
             seen.add("C16:rejected-input-changes-later-results")
             culprit = hist[r[0]][0]
-            hs = H.shrink(hist[:r[1] + 1], lambda t: c16_neutral_oracle(cfg, t, 4, culprit) is not None)
+            hs = H.shrink(hist[:r[1] + 1], lambda t: c16_neutral_oracle(cfg, t, 50, culprit) is not None)
             r = c16_neutral_oracle(cfg, hs, 50, culprit) or r
             out.append({"key": "C16:rejected-input-changes-later-results", "what": r[2], "kind": "c16-neutral",
                         **H.case_json(cfg, hs)})
